@@ -184,6 +184,8 @@ func C16(ctx *core.Ctx) int {
 		})
 		atomic.AddInt64(&sharedRuns, int64(n))
 	})
+	// output directories whose names are words the command line knows (format, compile, help ...), in both forms
+	wordRuns := c16DirectoryWords(ctx, bin, progs)
 	compRuns, straced := c16Compile(ctx, bin, progs)
 	nd := 0
 	distinct.Range(func(k, v any) bool { nd++; return true })
@@ -196,13 +198,14 @@ func C16(ctx *core.Ctx) int {
 		"distinct_nontrivial": nd,
 		"rule": "texts = grammar derivations + E1 programs + invalid texts + repository samples through `format -d`, `format -f` and FormatPacketDslExport (real binary, real .so from a C host), compared with the library formatter; " +
 			"programs x all 64 subsets of output flags x {`compile ...`, bare flags} through the real binary, output trees compared byte for byte with the library generators applied in the same order to one model; strace of file-creating syscalls for 'nowhere else'. distinct_nontrivial = distinct library results",
-		"samples":                      samples,
-		"texts":                        len(texts),
-		"compile_runs":                 compRuns,
-		"shared_output_directory_runs": sharedRuns,
-		"library_call_sequences":       seqCalls,
-		"compile_runs_straced":         straced,
-		"exhaustive":                   true,
+		"samples":                             samples,
+		"texts":                               len(texts),
+		"compile_runs":                        compRuns,
+		"shared_output_directory_runs":        sharedRuns,
+		"library_call_sequences":              seqCalls,
+		"directory_named_like_a_command_runs": wordRuns,
+		"compile_runs_straced":                straced,
+		"exhaustive":                          true,
 	}
 	ctx.Assumes = append(ctx.Assumes, "the binary is built with the map-order/clock seam pinned so that two compilations are comparable (C13 owns that nondeterminism); strace runs use the same binary",
 		"texts containing NUL are not passed through argv / C strings")
@@ -496,4 +499,77 @@ func c16CallSequences(ctx *core.Ctx, host, so string, valid []Text) map[string]a
 		}
 	})
 	return map[string]any{"alphabet": len(alphabet), "depth": depth, "sequences": len(seqs), "evaluations": evals}
+}
+
+// c16DirectoryWords: an output directory is a free name; the ones that coincide with words of the command line
+// (sub-commands, help) must be treated as directories in both the `compile ...` form and the bare-flags form.
+func c16DirectoryWords(ctx *core.Ctx, bin string, progs []*dsl.Program) int64 {
+	var sel []*dsl.Program
+	for _, p := range progs {
+		if familyOf(p.Name) == "P6" || p.Name == "P5/two-match" {
+			sel = append(sel, p)
+		}
+	}
+	words := []string{"format", "compile", "help", "completion", "version"}
+	type job struct {
+		p    *dsl.Program
+		lang string
+		word string
+		bare bool
+	}
+	var jobs []job
+	for _, p := range sel {
+		for li, l := range api.Langs {
+			for wi, w := range words {
+				if (li+wi)%2 == 0 || ctx.Thorough() {
+					jobs = append(jobs, job{p, l, w, false}, job{p, l, w, true})
+				}
+			}
+		}
+	}
+	var runs int64
+	core.Parallel(len(jobs), func(k int) {
+		j := jobs[k]
+		text := j.p.Text()
+		m, diags, err := parseText(ctx, text)
+		if err != nil || len(diags) > 0 || api.Cyclic(m) {
+			return
+		}
+		files, err := api.Generate(m, j.lang)
+		if err != nil {
+			return
+		}
+		dir := ctx.TempPath(".dw")
+		os.MkdirAll(dir, 0o755)
+		defer os.RemoveAll(dir)
+		file := filepath.Join(dir, "in.dsl")
+		os.WriteFile(file, []byte(text), 0o644)
+		var args []string
+		if !j.bare {
+			args = append(args, "compile")
+		}
+		args = append(args, "-f", file, langFlag[j.lang], j.word)
+		r := runCLI(dir, 120*time.Second, bin, args...)
+		atomic.AddInt64(&runs, 1)
+		if r.crashed {
+			return
+		}
+		form := "compile"
+		if j.bare {
+			form = "bare flags"
+		}
+		rep := map[string]any{"name": j.p.Name, "text": text, "args": args}
+		got := dirFiles(filepath.Join(dir, j.word))
+		if r.exit != 0 || len(got) == 0 {
+			ctx.Report(form+"|an output directory named like a word of the command line is not written", fmt.Sprintf("%s %v: exit %d, %d files under %q\n%s", j.p.Name, args[len(args)-2:], r.exit, len(got), j.word, core.Trunc(r.stdout+r.stderr, 300)), rep)
+			return
+		}
+		for n, b := range files {
+			if got[n] != string(b) {
+				ctx.Report(form+"|files under a directory named like a word of the command line differ from the generator's", fmt.Sprintf("%s %v: %s", j.p.Name, args[len(args)-2:], n), rep)
+				return
+			}
+		}
+	})
+	return runs
 }
